@@ -625,6 +625,21 @@ func (p *Parser) parsePrimaryExpression() (ast.Expression, error) {
 		return p.parseCaseExpression()
 	}
 
+	// Unary minus / plus: "-1", "-a", "a * -b". The sign binds tighter than the
+	// multiplicative operators and looser than "::" and the JSON operators.
+	if p.isType(models.TokenTypeMinus) || p.isType(models.TokenTypePlus) {
+		op := ast.Minus
+		if p.isType(models.TokenTypePlus) {
+			op = ast.Plus
+		}
+		p.advance()
+		operand, err := p.parseJSONExpression()
+		if err != nil {
+			return nil, err
+		}
+		return &ast.UnaryExpression{Operator: op, Expr: operand}, nil
+	}
+
 	if p.isType(models.TokenTypeCast) {
 		// Handle CAST(expr AS type) expressions
 		return p.parseCastExpression()
